@@ -105,6 +105,10 @@ type GenOpts struct {
 	Level      int  // 0: breaks only, 1: + margins, 2: + padding/borders, 3: + negative margins
 	NamedPages bool // C12: `page:` values
 	Sides      bool // recto/verso values too
+	// LongParent: one long block (8-14 short paragraphs, orphans/widows 1, many break-before/after: avoid)
+	// on small pages, so that the parent is resumed on several pages and avoid-rewinds
+	// (findEarlierPageBreak) happen on its continuation pages
+	LongParent bool
 }
 
 type gen struct {
@@ -192,6 +196,53 @@ func (g *gen) block(depth int, parent *Box) *Box {
 	return b
 }
 
+// longParent: a block of many short paragraphs glued by break-before/after: avoid.
+func (g *gen) longParent(parent *Box) *Box {
+	r := g.r
+	b := &Box{St: Style{BI: "auto", BB: "auto", BA: "auto", Orph: 1, Wid: 1, Pg: parent.St.Pg}}
+	st := []string{"orphans:1;widows:1"}
+	if r.P(1, 4) {
+		b.St.MT = float64(r.Intn(3) * 10)
+		st = append(st, fmt.Sprintf("margin:%spx 0 0px", fnum(b.St.MT)))
+	}
+	fmt.Fprintf(&g.buf, `<div style="%s">`, strings.Join(st, ";"))
+	n := 8 + r.Intn(7)
+	for i := 0; i < n; i++ {
+		p := &Box{St: Style{BI: "auto", BB: "auto", BA: "auto", Orph: 1, Wid: 1, Pg: b.St.Pg}}
+		var ps []string
+		if r.P(2, 5) {
+			p.St.BB = "avoid"
+			ps = append(ps, "break-before:avoid")
+			g.feat["break-before:avoid"] = true
+		}
+		if r.P(1, 4) {
+			p.St.BA = "avoid"
+			ps = append(ps, "break-after:avoid")
+			g.feat["break-after:avoid"] = true
+		}
+		if r.P(1, 8) {
+			p.St.BI = "avoid"
+			ps = append(ps, "break-inside:avoid")
+		}
+		fmt.Fprintf(&g.buf, `<div style="%s">`, strings.Join(ps, ";"))
+		k := 1 + r.Intn(3)
+		p.Lines = []int{}
+		for j := 0; j < k; j++ {
+			if j > 0 {
+				g.buf.WriteString("<br>")
+			}
+			g.n++
+			p.Lines = append(p.Lines, g.n)
+			g.buf.WriteString(Tok(g.n))
+		}
+		g.buf.WriteString("</div>")
+		b.Kids = append(b.Kids, p)
+	}
+	g.buf.WriteString("</div>")
+	g.feat["long-parent"] = true
+	return b
+}
+
 // ClassF is one generated class-F document.
 type ClassF struct {
 	HTML     string
@@ -208,6 +259,9 @@ type ClassF struct {
 func GenClassF(r *rng.R, o GenOpts, pageCSS string) *ClassF {
 	g := &gen{r: r, o: o, feat: map[string]bool{}}
 	h := float64(40 + r.Intn(9)*20)
+	if o.LongParent {
+		h = float64(40 + r.Intn(4)*20)
+	}
 	if r.P(1, 5) {
 		h += float64(r.Intn(4) * 5)
 	}
@@ -218,8 +272,15 @@ func GenClassF(r *rng.R, o GenOpts, pageCSS string) *ClassF {
 	rootSt := Style{BI: "auto", BB: "auto", BA: "auto", Orph: 2, Wid: 2}
 	body := &Box{St: rootSt}
 	k := 1 + r.Intn(5)
+	if o.LongParent {
+		k = 1 + r.Intn(2)
+	}
 	for i := 0; i < k; i++ {
-		body.Kids = append(body.Kids, g.block(0, body))
+		if o.LongParent {
+			body.Kids = append(body.Kids, g.longParent(body))
+		} else {
+			body.Kids = append(body.Kids, g.block(0, body))
+		}
 	}
 	root := &Box{St: rootSt, Kids: []*Box{body}}
 	root.St.Root = true
